@@ -1,6 +1,7 @@
 package harness
 
 import (
+	"math"
 	"fmt"
 	"math/rand"
 	"reflect"
@@ -35,6 +36,17 @@ type cOp struct {
 	K  int    `json:"k"`
 	M  int    `json:"m"`
 	Rv bool   `json:"rv"`
+	// Huge: the count really passed is math.MaxInt - (1<<30 - J); J (what the reference model sees: "everything from
+	// the start index on") stays within the integers of the model checker
+	Huge bool `json:"huge"`
+}
+
+// cnt is the delete count really passed to the container.
+func (o cOp) cnt() int {
+	if o.Huge {
+		return math.MaxInt - (1<<30 - o.J)
+	}
+	return o.J
 }
 
 func errName(err error) string {
@@ -137,7 +149,7 @@ func slDo(s *types.Slice[int], o cOp) (res cRes, aliasMod, aliasShow bool) {
 	case "filter":
 		res.Xs = nz(s.Filter(pred))
 	case "splice":
-		xs, err := s.Splice(o.I, o.J, arg...)
+		xs, err := s.Splice(o.I, o.cnt(), arg...)
 		res.Xs, res.Err = nz(xs), errName(err)
 		probe()
 	case "remove":
@@ -153,7 +165,7 @@ func slDo(s *types.Slice[int], o cOp) (res cRes, aliasMod, aliasShow bool) {
 		}, o.Rv)
 	case "rangesplice":
 		xs, err := s.RangeAndSplice(func(x int, _ int) (bool, int, int, []int) {
-			return x == o.M, o.I, o.J, arg
+			return x == o.M, o.I, o.cnt(), arg
 		}, o.Rv)
 		res.Xs, res.Err = nz(xs), errName(err)
 		probe()
@@ -199,10 +211,16 @@ func slRandOp(r *rand.Rand, n int, name string) cOp {
 		o.J = r.Intn(o.I)
 	case "splice":
 		o.I, o.J, o.A = idx(), r.Intn(5)-1, randInts(r, r.Intn(3))
+		if r.Intn(5) == 0 { // counts up to the largest integer: "everything from the start index on"
+			o.Huge, o.J = true, 1<<30-r.Intn(3)
+		}
 	case "range":
 		o.I, o.Rv = r.Intn(7), r.Intn(2) == 0
 	case "rangesplice":
 		o.M, o.I, o.J, o.A, o.Rv = r.Intn(7), idx(), r.Intn(5)-1, randInts(r, r.Intn(3)), r.Intn(2) == 0
+		if r.Intn(5) == 0 {
+			o.Huge, o.J = true, 1<<30-r.Intn(3)
+		}
 	}
 	return o
 }
@@ -686,7 +704,7 @@ func linSliceScenario(name string, seed int64, G, per int) Scenario {
 					o := slRandOp(r, 3, names[r.Intn(len(names))])
 					// keep arguments valid: the concurrent contract is about atomicity, not argument checking
 					if o.Op == "splice" || o.Op == "rangesplice" {
-						o.I, o.J = 0, r.Intn(2)
+						o.I, o.J, o.Huge = 0, r.Intn(2), false
 					}
 					if o.Op == "get" {
 						o.I = 0
@@ -727,7 +745,7 @@ func slDoYield(s *types.Slice[int], o cOp) (res cRes) {
 	case "filter":
 		res.Xs = nz(s.Filter(pred))
 	case "splice":
-		xs, err := s.Splice(o.I, o.J, arg...)
+		xs, err := s.Splice(o.I, o.cnt(), arg...)
 		res.Xs, res.Err = nz(xs), errName(err)
 	case "remove":
 		s.Remove(pred)
@@ -738,7 +756,7 @@ func slDoYield(s *types.Slice[int], o cOp) (res cRes) {
 	case "rangesplice":
 		xs, err := s.RangeAndSplice(func(x int, _ int) (bool, int, int, []int) {
 			yieldNow()
-			return x == o.M, o.I, o.J, arg
+			return x == o.M, o.I, o.cnt(), arg
 		}, o.Rv)
 		res.Xs, res.Err = nz(xs), errName(err)
 	case "all":
